@@ -51,7 +51,16 @@ func PrintHelpersIn(p *load.Program, tb *kinds.Table, rel string) *report.RuleRe
 	}
 	emit(roles.list, "printList", im.checkPrintList(im.Methods[roles.list], roles))
 	emit(roles.tok, "printToken", im.checkPrintToken(im.Methods[roles.tok], roles))
-	emit(roles.seplist, "printSeparatedList", im.checkSepList(im.Methods[roles.seplist], roles))
+	if why := im.checkSepList(im.Methods[roles.seplist], roles); why == "" {
+		emit(roles.seplist, "printSeparatedList", "")
+	} else if why2 := im.evalSepList(im.Methods[roles.seplist], roles); why2 == "" {
+		// not the single loop the structural argument is about: decided by evaluating the helper's source for every
+		// list length up to the bounds
+		res.Count("bounded-evaluations", 1)
+		res.OK("printSeparatedList", im.pos(im.Methods[roles.seplist]), "printer."+roles.seplist, fmt.Sprintf("item k, then separators[k] if it exists, else the default separator unless k is last: evaluated from source for all lists of up to %d items with up to %d separator tokens (a bounded argument; the single-loop shape that gives the unbounded one was not found: %s)", sepEvalMaxN, sepEvalMaxM, why))
+	} else {
+		emit(roles.seplist, "printSeparatedList", why+"; "+why2)
+	}
 	emit(roles.write, "write", im.checkWrite(im.Methods[roles.write]))
 	for name := range roles.selectors {
 		emit(name, "selector/"+name, im.checkSelector(im.Methods[name]))
